@@ -722,7 +722,39 @@ def covered_rich(a, msg):
     return r.get("unspecified")
 
 
+def finding_fixed_nan():
+    """a fixed (init=False) field whose value is a Decimal NaN, or a token list holding a NaN, fails its own fixed-value check"""
+    from dataclasses import dataclass, field
+    from decimal import Decimal
+    from typing import List
+
+    from xsdata.formats.dataclass.parsers import DictDecoder
+    from xsdata.formats.dataclass.serializers import DictEncoder
+
+    @dataclass
+    class F:
+        d: Decimal = field(init=False, default=Decimal("NaN"), metadata={"type": "Attribute"})
+
+    @dataclass
+    class T:
+        t: List[float] = field(init=False, default_factory=lambda: [float("nan")], metadata={"type": "Attribute", "tokens": True})
+
+    @dataclass
+    class S:
+        f: float = field(init=False, default=float("nan"), metadata={"type": "Attribute"})
+
+    out = []
+    for cls in (F, T, S):
+        try:
+            DictDecoder().decode(DictEncoder().encode(cls()), cls)
+            out.append("ok")
+        except Exception as e:  # noqa: BLE001
+            out.append(type(e).__name__)
+    return out == ["ParserError", "ParserError", "ok"], f"Decimal NaN: {out[0]}; token list with nan: {out[1]}; float nan: {out[2]}"
+
+
 FINDINGS = {
+    "C04-fixed-nan": finding_fixed_nan,
     "C04-subclass-ambiguity": finding_subclass,
     "C04-derived-without-type": finding_derived,
 }
